@@ -182,6 +182,9 @@ func (b gcsProg) Opts() conc.Opts {
 	if b.p.Tear {
 		return conc.Opts{N: len(b.p.Ops), Cls: gcs.TearClassify, LazyAcquire: true}
 	}
+	if b.p.CrossRead() {
+		return conc.Opts{N: len(b.p.Ops), Cls: gcs.ConcClassifyOneStep, LazyAcquire: true}
+	}
 	return conc.Opts{N: len(b.p.Ops), Cls: gcs.ConcClassify, LazyAcquire: true}
 }
 func (b gcsProg) Same(impl, model string) bool {
@@ -343,15 +346,24 @@ func cmdConc(kind string, args []string) {
 		}
 		var runs int
 		var done bool
+		replayed := false
 		if len(p.Sched()) > 0 && *replay != "" {
 			mk := p.Mk(&setupImpl)
 			var last conc.System
 			run := conc.RunOne(func(y func(string)) conc.System { last = mk(y); return &keepOpen{last} }, opts, p.Sched())
 			visit(run)
-			cases[0].fimpl = p.Final(last)
+			if len(cases) > 0 {
+				cases[0].fimpl = p.Final(last)
+				replayed = true
+				runs, done = 1, false
+			} else {
+				// the recorded schedule cannot be followed any more (the code, or the parking points, changed):
+				// explore the program's interleavings instead
+				visited, skipped = 0, nil
+			}
 			last.Close()
-			runs, done = 1, false
-		} else {
+		}
+		if !replayed {
 			// the final reads must be taken before the system is closed: wrap Close
 			mk := p.Mk(&setupImpl)
 			var finals [][]string
